@@ -72,6 +72,16 @@ class RandomChooser(object):
         # yield points inside scripted user code (callables, map / poll / cancel functions, policies,
         # done-callbacks) are where the library is re-entered or raced by design: extra chance of a switch
         self.user_q = cfg.get("user_q", 0.0)
+        if self.strategy == "place":
+            # placement: when user code hands off to a client that was waiting for this very
+            # moment (a semantic trigger), run that client alone for k yield points, then run the
+            # thread that was inside the window until it blocks or ends, then the client again.
+            # One seed = one placement k of the racing operation relative to the window.
+            self.line_q = cfg.get("line_q", 1.0)
+            self.pl_k = 1 + self.rng.randrange(int(cfg.get("kmax", 60)))
+            self.pl_state = "idle"
+            self.pl_a = self.pl_b = None
+            self.pl_n = 0
         if self.strategy == "site":
             # site-directed: a seed-dependent subset of the library's source lines (about one in
             # site_mod) is "hot"; the first few times any thread reaches a hot line it is pre-empted.
@@ -107,11 +117,42 @@ class RandomChooser(object):
     def pick(self, step, cands, cur, default):
         s = self.strategy
         rng = self.rng
-        if self.user_q and cur is not None and cur.status == RUNNABLE and isinstance(self.cur_why, str) \
-                and self.cur_why.startswith("user") and rng.random() < self.user_q:
-            others = [t for t in cands if t is not cur]
-            if others:
-                return others[rng.randrange(len(others))]
+        if s == "place":
+            st = self.pl_state
+            runnable = cur is not None and cur.status == RUNNABLE
+            if st == "idle" and runnable and self.cur_why == "user-handoff":
+                others = [t for t in cands if t is not cur]
+                if others:
+                    a = others[rng.randrange(len(others))]
+                    self.pl_state, self.pl_a, self.pl_b, self.pl_n = "counting", a.tid, cur.tid, 0
+                    return a
+            elif st == "counting":
+                if runnable and cur.tid == self.pl_a:
+                    self.pl_n += 1
+                    if self.pl_n >= self.pl_k:
+                        for t in cands:
+                            if t.tid == self.pl_b:
+                                self.pl_state = "running-b"
+                                return t
+                        self.pl_state = "done"
+                    return cur
+                self.pl_state = "done"      # the client blocked or ended before its k-th point
+            elif st == "running-b":
+                if runnable and cur.tid == self.pl_b:
+                    return cur
+                self.pl_state = "done"
+                for t in cands:
+                    if t.tid == self.pl_a:
+                        return t
+            if runnable:
+                return cur
+            return cands[rng.randrange(len(cands))]
+        if cur is not None and cur.status == RUNNABLE and isinstance(self.cur_why, str) and self.cur_why.startswith("user"):
+            q = 0.5 if self.cur_why == "user-handoff" else self.user_q
+            if q and rng.random() < q:
+                others = [t for t in cands if t is not cur]
+                if others:
+                    return others[rng.randrange(len(others))]
         if s == "uniform":
             return cands[rng.randrange(len(cands))]
         if s == "sticky":
